@@ -3,14 +3,21 @@ package value
 import (
 	"fmt"
 	"sync"
+	"sync/atomic"
 )
 
 var RWMutexClass *Class              // ::Std::Sync::RWMutex
 var RWMutexUnlockedErrorClass *Class // ::Std::Sync::RWMutex::UnlockedError
 
 // Wraps a Go RWMutex.
+//
+// Unlocking an unlocked `sync.RWMutex` is a fatal runtime error
+// that cannot be recovered, so the lock state is tracked
+// next to the native mutex to report it as an Elk error.
 type RWMutex struct {
-	Native sync.RWMutex
+	Native  sync.RWMutex
+	writer  atomic.Bool  // set after `Native` has been acquired for writing, cleared before it is released
+	readers atomic.Int64 // read locks that have been acquired and not yet handed to an unlocking caller
 }
 
 func NewRWMutex() *RWMutex {
@@ -55,29 +62,35 @@ func (*RWMutex) InstanceVariables() *InstanceVariables {
 
 func (m *RWMutex) Lock() {
 	m.Native.Lock()
+	m.writer.Store(true)
 }
 
 func (m *RWMutex) ReadLock() {
 	m.Native.RLock()
+	m.readers.Add(1)
 }
 
 func (m *RWMutex) Unlock() (err Value) {
-	defer func() {
-		if r := recover(); r != nil {
-			err = Ref(NewError(RWMutexUnlockedErrorClass, "a rwmutex that is unlocked for writing cannot be unlocked for writing"))
-		}
-	}()
+	// only the caller that clears the flag releases the native mutex
+	if !m.writer.CompareAndSwap(true, false) {
+		return Ref(NewError(RWMutexUnlockedErrorClass, "a rwmutex that is unlocked for writing cannot be unlocked for writing"))
+	}
 
 	m.Native.Unlock()
 	return Undefined
 }
 
 func (m *RWMutex) ReadUnlock() (err Value) {
-	defer func() {
-		if r := recover(); r != nil {
-			err = Ref(NewError(RWMutexUnlockedErrorClass, "a rwmutex that is unlocked for reading cannot be unlocked for reading"))
+	// take one of the acquired read locks, each is released by exactly one caller
+	for {
+		n := m.readers.Load()
+		if n <= 0 {
+			return Ref(NewError(RWMutexUnlockedErrorClass, "a rwmutex that is unlocked for reading cannot be unlocked for reading"))
 		}
-	}()
+		if m.readers.CompareAndSwap(n, n-1) {
+			break
+		}
+	}
 
 	m.Native.RUnlock()
 	return Undefined
